@@ -431,6 +431,19 @@ def process_model(model_prop: ModelProperty, *, schemas: Schemas, config: Config
     Returns:
         Either the updated `schemas` input or a `PropertyError` if something went wrong.
     """
+    registered = schemas.classes_by_name.get(model_prop.class_info.name)
+    if isinstance(registered, ModelProperty) and registered is not model_prop and registered.data is model_prop.data:
+        # `model_prop` is another handle on the class of `registered` (a schema which is nothing but a reference to
+        # it): share its properties. Building them a second time would register its inline models twice.
+        if registered.required_properties is None or registered.optional_properties is None:
+            return PropertyError(detail=f"{registered.name} has not been processed yet", data=model_prop.data)
+        object.__setattr__(model_prop, "required_properties", registered.required_properties)
+        object.__setattr__(model_prop, "optional_properties", registered.optional_properties)
+        object.__setattr__(model_prop, "relative_imports", registered.relative_imports)
+        object.__setattr__(model_prop, "lazy_imports", registered.lazy_imports)
+        object.__setattr__(model_prop, "additional_properties", registered.additional_properties)
+        return schemas
+
     data_or_err, schemas = _process_property_data(
         data=model_prop.data,
         schemas=schemas,
